@@ -435,7 +435,7 @@ func (w *fw) table(depth int) string {
 	return b.String()
 }
 
-var foreignMediaNames = []string{"image1.png", "Image 01.PNG", "picture.jpeg", "image0.png", "image7", "image-1.png", "image99999999999999999999.png", "image2.jpg", "image3.emf", "IMAGE5.png", "image4.gif"}
+var foreignMediaNames = []string{"image1.png", "Image 01.PNG", "picture.jpeg", "image0.png", "image7", "image-1.png", "image99999999999999999999.png", "image2.jpg", "image3.emf", "IMAGE5.png", "image4.gif", "图片1.png", "Bild ü.jpeg"}
 
 // MakeForeign builds a package.
 var reAnyTag = regexp.MustCompile(`<[^<>]*>`)
